@@ -37,9 +37,20 @@ def analyse_all_closure(F, clo, map_term, weight_term):
     fn = F.fns[clo[1][len("closure:"):]]
     pr = P.Prov(fn)
     r = pr.local(0)
-    if not (r[0] == "call" and r[1].rsplit("::", 1)[-1] == "is_some_and" and len(r[2]) == 2):
-        return f"closure result is {P.show(r)[:60]}"
-    g = P.strip(r[2][0], calls=False)
+    direct = None
+    if r[0] == "call" and r[1].rsplit("::", 1)[-1] == "is_some_and" and len(r[2]) == 2:
+        g = P.strip(r[2][0], calls=False)
+    else:
+        # map.get(&cp) == Some(weight)
+        rel0 = I.norm_rel(r, True)
+        if rel0 is None or rel0[0] != "Eq":
+            return f"closure result is {P.show(r)[:60]}"
+        x0, y0 = P.strip(rel0[1], calls=False), P.strip(rel0[2], calls=False)
+        if y0[0] == "call":
+            x0, y0 = y0, x0
+        if not (y0[0] == "agg" and y0[1] == "adt:std::option::Option::Some" and len(y0[2]) == 1):
+            return f"closure result is {P.show(r)[:60]}"
+        g, direct = x0, P.strip(y0[2][0])
     if not (g[0] == "call" and g[1].rsplit("::", 1)[-1] == "get" and len(g[2]) == 2 and P.strip(g[2][1]) == ("param", 2)):
         return "the closure does not look the combo up in a map"
     m = P.strip(g[2][0])
@@ -51,6 +62,13 @@ def analyse_all_closure(F, clo, map_term, weight_term):
             P.strip(("field", cap, m[2])) == P.strip(map_term)
     if not ok_map:
         return "the looked-up map is not the range's own map"
+    if direct is not None:
+        if not (direct[0] == "field" and P.strip(direct[1]) == ("param", 1)):
+            return "captured weight not recognised"
+        w = capture(clo, direct[2])
+        if P.strip(w) != P.strip(weight_term):
+            return "the captured weight is not the probe's weight"
+        return None
     inner = r[2][1]
     if not (inner[0] == "agg" and inner[1].startswith("closure:")):
         return "is_some_and argument is not a closure"
@@ -101,26 +119,44 @@ def run(ctx):
     seen_variants = {}
     for bi, t in inserts:
         key = P.strip(pr.operand(t["args"][1]))
-        val = P.strip(pr.operand(t["args"][2]))
+        val = P.strip(P.narrow_variants(pr.operand(t["args"][2])))
         if not (key[0] == "agg" and key[1].startswith("adt:" + RANK_PAIR + "::")):
             ctx.violation(rule, f"{fn.path}|insert-key", f"inserted key is not a rank pair literal: {P.show(key)[:60]}", fn=fn.path, file=fn.file, line=fn.blocks[bi]["line"])
             continue
         V = key[1].rsplit("::", 1)[-1]
         ranks = [P.strip(o) for o in key[2]]
         problems = []
-        # guards: contains_key(map, &probe) and all(into_iter(key), closure)
-        probe = None
-        ck_edges, all_edges = [], []
-        all_call = None
+        # guards: the probe combo is present (contains_key(map, &probe), or get(map, &probe) tested for Some) and
+        # all(into_iter(key), closure) holds
+        def is_get(t_):
+            g_ = P.strip(t_, calls=False)
+            return g_[0] == "call" and g_[1].rsplit("::", 1)[-1] == "get" and len(g_[2]) == 2 and P.strip(g_[2][0]) == map_term
+        present = {}   # probe term -> edges on which it is known present
+        all_groups = {}
         for b, lab, truth, term in I.bool_edges(fn, pr):
             if not truth or term[0] != "call":
                 continue
             nm = term[1].rsplit("::", 1)[-1]
-            if nm == "contains_key" and P.strip(term[2][0]) == map_term and fn.cfg.edge_dominates(b, lab, bi):
-                probe = P.strip(term[2][1])
-                ck_edges.append((b, lab))
-            if nm == "all" and fn.cfg.edge_dominates(b, lab, bi):
-                all_edges.append((b, lab))
+            if nm == "contains_key" and P.strip(term[2][0]) == map_term:
+                present.setdefault(P.strip(term[2][1]), []).append((b, lab))
+            if nm == "all":
+                all_groups.setdefault(term, []).append((b, lab))
+        for gb, gt in fn.calls():
+            if gb not in fn.cfg.reachable or gt["callee"].get("name") != "get":
+                continue
+            gterm = pr.call_term(gt, gb)
+            if not is_get(gterm):
+                continue
+            for (b, lab, st) in I.option_edges(fn, pr, lambda t_, g_=gterm: P.strip(t_, calls=False) == g_):
+                if st == "some":
+                    present.setdefault(P.strip(gterm[2][1]), []).append((b, lab))
+        probe = None
+        for cand, edges in present.items():
+            if I.guarded_by(fn, bi, edges):
+                probe = cand
+        all_call = None
+        for term, edges in all_groups.items():
+            if I.guarded_by(fn, bi, edges):
                 all_call = term
         if probe is None:
             problems.append("no contains_key(probe) guard")
@@ -128,12 +164,12 @@ def run(ctx):
             problems.append("no all(..) guard")
         weight = None
         if probe is not None:
-            # value = *unwrap(get(map, &probe))
-            v = val
-            if v[0] == "call" and v[1].rsplit("::", 1)[-1] in ("unwrap", "expect"):
-                g = P.strip(v[2][0], calls=False)
-                if g[0] == "call" and g[1].rsplit("::", 1)[-1] == "get" and P.strip(g[2][0]) == map_term and P.strip(g[2][1]) == probe:
-                    weight = v
+            # value = *unwrap(get(map, &probe)) or the payload of `if let Some(w) = get(map, &probe)` / `get(..)?`
+            g = I.option_payload(val)
+            if g is not None:
+                g = P.strip(g, calls=False)
+                if is_get(g) and P.strip(g[2][1]) == probe:
+                    weight = val
             if weight is None:
                 problems.append(f"the reported weight is not the probe combo's weight: {P.show(val)[:60]}")
             # probe membership
@@ -218,37 +254,8 @@ def run(ctx):
     po = P.Prov(of)
     ctx.analysed([of])
     ret = P.strip(po.local(0), calls=False)
-    problems = []
-    if not (ret[0] == "call" and ret[1].rsplit("::", 1)[-1] == "clone" and P.strip(ret[2][0]) == map_term):
-        problems.append(f"the result is not a clone of the range's map: {P.show(ret)[:60]}")
-    ofl = L.for_loops(of, po)
-    rem = [(bi, t) for bi, t in of.calls() if t["callee"].get("name") == "remove" and bi in of.cfg.reachable]
-    if len(rem) != 1 or len(ofl) != 2:
-        problems.append(f"{len(rem)} remove calls / {len(ofl)} loops (expected 1 / 2)")
-    else:
-        bi, t = rem[0]
-        inner = [lp for lp in ofl if bi in lp.body]
-        inner.sort(key=lambda lp: len(lp.body))
-        il, ol = inner[0], inner[-1]
-        if len(inner) != 2:
-            problems.append("remove is not inside the nested loops")
-        else:
-            # outer iterates rank_pairs(self)
-            osrc, och = ol.chain()
-            so = P.strip(osrc, calls=False)
-            if not (so[0] == "call" and so[1] == HR + "::rank_pairs" and P.strip(so[2][0]) == ("param", 1)):
-                problems.append("the outer loop does not iterate self.rank_pairs()")
-            isrc, ich = il.chain()
-            if not (P.strip(isrc) == ("field", ol.item_term, 0) and ich == [f"<{RANK_PAIR} as std::iter::IntoIterator>::into_iter"]):
-                problems.append("the inner loop does not iterate the combos of the reported rank pair")
-            if P.strip(po.operand(t["args"][1])) != P.strip(il.item_term):
-                problems.append("the removed key is not the current combo")
-            if not L.in_every_iteration(of, il, bi):
-                problems.append("the removal is conditional")
-            if P.strip(po.operand(t["args"][0])) != ret and P.strip(po.operand(t["args"][0]), calls=False) != ret:
-                problems.append("combos are removed from another map than the returned clone")
-            if any(c.rsplit("::", 1)[-1] in ("skip", "take", "filter", "rev", "step_by") for c in och + ich):
-                problems.append("an adaptor filters the loops")
+    from rules import runpass
+    problems = runpass.orphan_shape(F, of, po, ret, map_term)
     if problems:
         ctx.violation(rule_o, f"{of.path}|shape", "; ".join(problems), fn=of.path, file=of.file, line=of.line)
     else:
